@@ -31,7 +31,8 @@ TRUSTED_BASE = [
 
 RS2LEAN_SPECS = [('words.json', 'WordsSrcGen.lean', 'SrcWords'), ('rdh.json', 'RdhSrcGen.lean', 'SrcRdh'),
                  ('payload.json', 'PayloadSrcGen.lean', 'SrcPayload'),
-                 ('stateful.json', 'StateSrcGen.lean', 'SrcState')]
+                 ('stateful.json', 'StateSrcGen.lean', 'SrcState'),
+                 ('trigstats.json', 'TrigSrcGen.lean', 'SrcTrig')]
 
 os.makedirs(CACHE, exist_ok=True)
 
